@@ -3,7 +3,7 @@
 (* C18, C->S: runs of the real yaml-merge drivers recorded by the harness  *)
 (* (harness/props/c18.py) are validated against YMultiDoc by folding the   *)
 (* SAME MStep that MC_YMultiDoc model-checks.  One record per run:         *)
-(*   mode, hashes, arrays, files (document ids per stream), kinds,         *)
+(*   mode, hashes, arrays, sets, files (document ids per stream), kinds,   *)
 (*   events  - one per get_doc_mergers call (Load), per Merger.merge_with  *)
 (*             call (CondenseLhs/CondenseRhs/Across/Matrix, with the       *)
 (*             policy in force and the marker data of both operands as     *)
@@ -18,9 +18,9 @@ EXTENDS YMultiDoc, Json, IOUtils, TLC
 
 Recs == JsonDeserialize(IOEnv.RECORDS_IN)
 
-ObsDoc(o) == [nul |-> o.nul, keys |-> Range(o.keys), shared |-> o.shared, lst |-> o.lst]
-JDoc(c)   == [nul |-> c.nul, keys |-> c.keys, shared |-> c.shared, lst |-> c.lst]
-NormEv(e) == Ev(e.kind, e.f, e.i, e.j, e.ids, Pol(e.hashes, e.arrays))
+ObsDoc(o) == [nul |-> o.nul, root |-> o.root, keys |-> Range(o.keys), shared |-> o.shared, lst |-> o.lst]
+JDoc(c)   == [nul |-> c.nul, root |-> c.root, keys |-> c.keys, shared |-> c.shared, lst |-> c.lst]
+NormEv(e) == Ev(e.kind, e.f, e.i, e.j, e.ids, Pol(e.hashes, e.arrays, e.sets))
 IsMerge(e) == e.kind \in {"CondenseLhs", "CondenseRhs", "Across", "Matrix"}
 
 \* the Merger objects a pairwise event names in state s (before the step)
@@ -71,7 +71,7 @@ DocsWhy(obs, expc) ==
 HeapDocs(s) == [p \in 1..Len(s.lhs) |-> HContent(s.heap, Acc(s, p))]
 
 Verdict(r) ==
-  LET pol   == Pol(r.hashes, r.arrays)
+  LET pol   == Pol(r.hashes, r.arrays, r.sets)
       runP  == Run(MInit(r.mode, pol, r.files, r.kinds, FALSE), r.events)   \* design as pinned
       runC  == Run(MInit(r.mode, pol, r.files, r.kinds, TRUE), r.events)    \* repaired design
       exp   == Expected(r.mode, r.files)                \* declarative - does not depend on the trace
